@@ -865,3 +865,25 @@ VARIANTS += [
     dict(prop="C16", name="batch-position-by-modulo", benign=True,
          edits=[dict(file=BTF, find="        let record_offset_in_batch = usize::from(record_id) - first_record_in_batch;", replace="        let record_offset_in_batch = usize::from(record_id) % self.records_per_batch;")]),
 ]
+
+VARIANTS += [
+    dict(prop="C05", name="tag-hash-fold-starts-at-one", expect="TAG|hash:fold-from-zero",
+         edits=[dict(file=SMF, find="            .fold(<Gf32Bit as SharedValue>::ZERO, |acc, (row_entry, key)| {", replace="            .fold(<Gf32Bit as crate::ff::Field>::ONE, |acc, (row_entry, key)| {")]),
+    dict(prop="C05", name="tag-hash-step-ignores-key", expect="TAG|hash:fold-step",
+         edits=[dict(file=SMF, find="                acc + row_entry * *key\n", replace="                let _ = key;\n                acc + row_entry\n")]),
+    dict(prop="C05", name="tag-hash-drops-the-tag-word", expect="TAG|hash:entries=row-words-then-tag",
+         edits=[dict(file=SMF, find="            .into_iter()\n            .chain(iter::once(tag))\n    });", replace="            .into_iter()\n            .chain(iter::once(Gf32Bit::ZERO * tag))\n    });")]),
+    dict(prop="C05", name="reveal-keys-appends-zero", expect="TAG|keys:opened-then-ONE",
+         edits=[dict(file=SMF, find="        .chain(iter::once(Gf32Bit::ONE))\n        .collect::<Vec<_>>();", replace="        .chain(iter::once(Gf32Bit::ZERO))\n        .collect::<Vec<_>>();")]),
+    dict(prop="C05", name="tag-hash-step-operands-commuted", benign=True,
+         edits=[dict(file=SMF, find="                acc + row_entry * *key\n", replace="                *key * row_entry + acc\n")]),
+]
+
+VARIANTS += [
+    dict(prop="C05", name="tag-gen-transpose-swapped", expect="TAG|gen:transpose",
+         edits=[dict(file=SMF, find="                .map(|col| (0..TAG_CHUNK).map(|i| split_rows[i][col].clone()).collect())", replace="                .map(|col| (0..TAG_CHUNK).map(|i| split_rows[i % split_rows.len()][(col + i) % keys.len()].clone()).collect())")]),
+    dict(prop="C05", name="tag-gen-row-gets-neighbours-tag", expect="TAG|gen:tag-i-to-row-i",
+         edits=[dict(file=SMF, find="                .map(|i| concatenate_row_and_tag(&chunk[i], &tags[i]))", replace="                .map(|i| concatenate_row_and_tag(&chunk[i], &tags[i ^ 1]))")]),
+    dict(prop="C05", name="tag-gen-extra-closure-before-fold", benign=True,
+         edits=[dict(file=SMF, find="            // Join tags to rows\n", replace="            let check_len = |n: usize| debug_assert_eq!(n, TAG_CHUNK);\n            check_len(tags.len());\n            // Join tags to rows\n")]),
+]
